@@ -166,7 +166,9 @@ StopFails(r, X, j) ==
 Unjudged(r, ep, j) ==
   LET X == Inst(ep, j) IN
   CoreNums(X) /\
-  ( \/ (r.stop > 0 /\ ~(j = 1 /\ Fresh(r)) /\ LET v == SensorValue(StopOf(r), X) IN v # SNull /\ StopClass(v, r.thr) = "band")
+  ( \/ (r.stop > 0 /\ ~(j = 1 /\ Fresh(r)) /\ LET v == SensorValue(StopOf(r), X)  se == SensEv(r, j)
+                                                    cross == "thr_unit" \in DOMAIN r /\ se # {} /\ \A e \in se : "unit" \in DOMAIN e /\ e.unit # r.thr_unit IN
+                                                v # SNull /\ StopClassX(v, r.thr, cross) = "band")
     \/ (r.ctrl > 0 /\ \E idx \in 1..Len(Tr.ctrls[r.ctrl]) : "any" \in RuleAllowed(Tr.ctrls[r.ctrl][idx], X, ep, j, r.dt))
     \* the duty cycle within rounding distance of the dead-zone boundary: the documented torque law jumps there when the
     \* motor is moving and i0 = 0 (T -> -Tmax w/w0 as D -> 0+, but exactly 0 at D = 0), so which side a rounding error
